@@ -57,7 +57,7 @@ func run(b *harness.B) {
 	if b.Batch == 0 {
 		fixedCases(r)
 	}
-	budget := int64(b.Pick(800_000, 10_000_000))
+	budget := int64(b.Pick(800_000, 14_000_000))
 	netRng := b.SubRng("netgen")
 	for g := 0; r.steps < budget; g++ {
 		span := spans[g%len(spans)]
